@@ -39,7 +39,7 @@ def handleRun (j : Json) : Json :=
     match load (jfiles j) ((jopt j "project_file").getD "laze-project.yml") st.buildDir with
     | .error e => lerrJ e
     | .ok (bag, _) =>
-      match generate (jtable j) (fun _ => 0) st bag genArgs with
+      match generateChecked (jtable j) (fun _ => 0) st bag genArgs with
       | .error e => gerrJ e
       | .ok (.failed errs) =>
         match errs.find? (fun e => match e with | .error k => k.startsWith "need:" | _ => false) with
